@@ -492,11 +492,18 @@ def run(ctx: vlib.Ctx):
     ctx.theorems("props/C04_formats.vo", ["C04_roundtrip_partial", "C04_roundtrip_refuted", "C04_doc_is_basic", "C04_doc_exact"])
     ctx.theorems("props/C04_names.vo", ["C04_method_names_injective", "C04_method_names_total"], kernels=["K11"])
     ctx.checker_cmd = f"make -C {vlib.COQ} props/C04_formats.vo props/C04_names.vo (coqc 8.16.1, full .vo build)"
+    if not ctx.quick():     # second opinion on the compiled proofs
+        rc, log, _ = vlib.run(["timeout", "600", "coqchk", "-silent", "-Q", "theories", "Verif", "-Q", "gen", "VerifGen",
+                               "-Q", "props", "VerifProps", "VerifProps.C04_formats", "VerifProps.C04_names"],
+                              cwd=vlib.COQ, timeout=630)
+        ctx.obligation("coqchk VerifProps.C04_formats VerifProps.C04_names", rc == 0, log[-600:])
+        if rc != 0:
+            ctx.not_shown("coqchk on the C04 props", log[-1000:])
     k11_validation(ctx)
     correspondence(ctx)
     broken = bool(ctx.unshown)
     names_oracle(ctx)
-    n_s, n_v = ctx.budget(160, 1400), ctx.budget(5, 8)
+    n_s, n_v = ctx.budget(160, 1100), ctx.budget(5, 8)
     if broken:      # a proof obligation or the correspondence broke: search harder for a failing input
         n_s = ctx.budget(260, 3000)
     law_fail = oracle(ctx, n_s, n_v)
@@ -520,7 +527,12 @@ def replay(rep: dict) -> int:
         v = eval(rep["value_src"], ns)
         shape = eval(rep["shape"], ns)
         F, kind = rep["format"], rep["kind"]
-        entry = L.Entry(F, kind, ns[rep["root"]] if kind in ("mixin", "mixin-str") else shape)
+        try:
+            entry = L.Entry(F, kind, ns[rep["root"]] if kind in ("mixin", "mixin-str") else shape)
+        except Exception as e:
+            print("  build:", _exc(e))
+            print("REPRODUCED" if rep["phase"] == "build" else "not reproduced (the codec objects cannot be built)")
+            return 1 if rep["phase"] == "build" else 0
         fails = check_case(entry, v)
         if kind == "mixin":
             comp, law = check_composition(entry, v, rep.get("orjson_options", 0) if F == "orjson" else 0)
